@@ -9,7 +9,10 @@ PROOF  lean/Bee2V/C13/Props*.lean over the executable model of src/crypto/bels.c
        every order; share = ((x^l + m0) k + s) mod (x^l + mi); ERR_BAD_PUBKEY exactly when two moduli
        are not coprime (ppExGCD's binary algorithm returns THE gcd); the 51 standard polynomials are
        pairwise coprime (kernel evaluation), so belsShare2/3 + belsRecover2 need no hypothesis;
-       no operand of ppMul/ppMod/ppExGCD is ever truncated by the declared word counts; layout arithmetic.
+       no operand of ppMul/ppMod/ppExGCD is ever truncated by the declared word counts; layout arithmetic;
+       PropsKeys.lean: belsValM = OK <=> x^l + m0 irreducible; keys written by belsGenM0/Mi/Mid pass belsValM, differ
+       from m0 and are the minimal polynomial of the first acceptable candidate (on C05's Ben-Or / minimal-polynomial
+       theorems); recovery with valid pairwise distinct keys without any coprimality hypothesis.
 TIE    harness/c13.c (real library) vs drv_c13 (compiled model) on the same op lines, configs asan
        (64-bit words) and w32 (32-bit words): standard and generated keys, 3 lengths, count 1..16,
        threshold 1..count, ALL subsets of size >= t in ALL orders for count <= 4 (thorough: <= 6),
@@ -23,7 +26,7 @@ import itertools, os, random, sys
 import vcommon
 from vcommon import VERIF
 
-PROPS = ["Bee2V/C13/Props.lean", "Bee2V/C13/PropsRec.lean"]
+PROPS = ["Bee2V/C13/Props.lean", "Bee2V/C13/PropsRec.lean", "Bee2V/C13/PropsKeys.lean"]
 LENS = (16, 24, 32)
 
 M_STD = {
@@ -517,7 +520,7 @@ def corpus_ops(W):
 
 
 def run(ctx):
-    proof_ok, log = ctx.prove(["Bee2V.C13.Props", "Bee2V.C13.PropsRec"], PROPS)
+    proof_ok, log = ctx.prove(["Bee2V.C13.Props", "Bee2V.C13.PropsRec", "Bee2V.C13.PropsKeys"], PROPS)
     tier = ctx.tier
     total_bad, mism_all = [], []
     kinds = {}
@@ -574,10 +577,11 @@ def run(ctx):
         assumptions=[
             "ppMul / ppMod / ppExGCD / ppDiv on word arrays compute the Nat-coded GF(2)[x] product / remainder / binary gcd "
             "(word layer: property C05; here tied by correspondence on operands of up to 15*n words)",
-            "belsValM = OK implies irreducible (Ben-Or test, ppIsIrred) is NOT proved: the general-key theorems assume pairwise coprime "
-            "key polynomials (or irreducible + distinct); for the standard keys coprimality is kernel-evaluated",
-            "belsGenMi / belsGenMid: degree l and != m0 proved; irreducibility of the minimal polynomial is correspondence + "
-            "independent Rabin test on every generated key (partial)",
+            "validity of keys (belsValM = OK <=> irreducible; belsGenMi/belsGenMid/belsGenM0 results pass belsValM) rests on property C05's theorems about its "
+            "value-level models ppIsIrredV / ppMinPolyModV (imported), bridged to this model by LemmasBridge.lean; every generated key of the run is "
+            "additionally tested by an independent Rabin test",
+            "general-key recovery theorems assume pairwise coprime key polynomials, or (recover_valid_distinct_keys) keys that pass belsValM and are "
+            "pairwise distinct; for the standard keys nothing is assumed (kernel-evaluated)",
             "belt-hash / belt-ctr / belt-compress models are those of property C01 (imported)",
             "the region d overflows into the dead region u when count = 2 (layout theorem); registers are otherwise separate in the model",
         ],
